@@ -307,6 +307,43 @@ where
     res
 }
 
+/// Canonical structural hash of the diagram below `root` (level, children hashes, tags):
+/// equal functions under the same variable order have identical reduced diagrams and
+/// therefore identical hashes, in any manager of the same kind.
+pub fn struct_hash<M: Manager>(m: &M, root: &M::Edge, term: &impl Fn(&M::Terminal) -> u64) -> u64
+where
+    M::InnerNode: HasLevel,
+{
+    use std::borrow::Borrow;
+    fn mixh(a: u64, b: u64) -> u64 {
+        crate::engine::mix(a ^ b.rotate_left(29) ^ 0x51ed_2701)
+    }
+    fn go<M: Manager>(m: &M, e: &M::Edge, memo: &mut HashMap<usize, u64>, term: &impl Fn(&M::Terminal) -> u64) -> u64
+    where
+        M::InnerNode: HasLevel,
+    {
+        let tag = e.tag().as_usize() as u64;
+        let base = match m.get_node(e) {
+            Node::Terminal(t) => mixh(0xface, term(t.borrow())),
+            Node::Inner(n) => {
+                let id = e.node_id();
+                if let Some(h) = memo.get(&id) {
+                    *h
+                } else {
+                    let mut h = mixh(0x1234, m.level_to_var(n.level()) as u64 + ((n.level() as u64) << 32));
+                    for c in n.children() {
+                        h = mixh(h, go(m, &*c, memo, term));
+                    }
+                    memo.insert(id, h);
+                    h
+                }
+            }
+        };
+        mixh(base, tag)
+    }
+    go(m, root, &mut HashMap::new(), term)
+}
+
 /// Debug dump of all stored nodes
 pub fn dump<M: Manager>(m: &M) -> String
 where
@@ -374,6 +411,8 @@ pub trait BoolKind: 'static {
     fn audit(mr: &MRef<Self>, handles: &[&Self::F], check_rc: bool) -> Result<AuditInfo, String>;
     fn set_var_order(mr: &MRef<Self>, order: &[VarNo], seq: bool);
     fn dump(mr: &MRef<Self>) -> String;
+    /// canonical structural hash (comparable across managers with the same order)
+    fn shash(f: &Self::F) -> u64;
     fn set_split_depth(mr: &MRef<Self>, d: Option<u32>);
     fn order(mr: &MRef<Self>) -> Vec<u32> {
         mr.with_manager_shared(|m| (0..m.num_levels()).map(|l| m.level_to_var(l)).collect())
@@ -444,6 +483,9 @@ macro_rules! bool_kind {
             }
             fn dump(mr: &MRef<Self>) -> String {
                 mr.with_manager_exclusive(|m| dump(&*m))
+            }
+            fn shash(f: &Self::F) -> u64 {
+                f.with_manager_shared(|m, e| struct_hash(m, e, &|t| if ($term_true)(t) { 1 } else { 2 }))
             }
             fn dddmp_export(mr: &MRef<Self>, s: &DdSettings, roots: &[&Self::F], root_names: Option<&[String]>) -> (Vec<u8>, Result<(), String>) {
                 use oxidd_dump::dddmp::{DDDMPVersion, ExportSettings};
